@@ -9,6 +9,7 @@ generator knows the value by construction) and predicts the exact sequence of
 """
 import functools
 import logging
+import signal
 
 from hypothesis import strategies as st
 
@@ -457,7 +458,22 @@ def _notes(stmts, out):
     return out
 
 
+WATCHDOG = 10.0
+
+
+def _rearm_watchdog():
+    """vlib arms a one-shot SIGALRM.  When it lands inside Hypothesis' GC callback the HarnessTimeout is
+    swallowed ("Exception ignored in gc_callback") and a non-terminating \\whiledo would then run for ever
+    (seen with a mutant).  Re-arm with an interval: the alarm keeps firing until the runner clears it."""
+    try:
+        # the runner raises Stream.timeout tenfold to confirm a hang: follow it
+        signal.setitimer(signal.ITIMER_REAL, max(x.timeout for x in STREAMS), 1.0)
+    except (ValueError, OSError):       # not in the main thread / no handler: leave the runner's timer alone
+        pass
+
+
 def check(case):
+    _rearm_watchdog()
     _reset_class_state()
     prog = M.Program(case)
     try:
@@ -608,12 +624,12 @@ RULE_GRID = ("complete enumeration: chains of 1-3 (thorough: 4) operands x truth
 
 STREAMS = [
     Stream("ifthenelse", "given", lambda tier: if_program(), check,
-           budget={"quick": 300, "thorough": 9000}, timeout=4.0, rule=RULE_IF, hang_is_violation=True),
+           budget={"quick": 300, "thorough": 9000}, timeout=WATCHDOG, rule=RULE_IF, hang_is_violation=True),
     Stream("whiledo", "given", lambda tier: while_program(), check,
-           budget={"quick": 160, "thorough": 5000}, timeout=4.0, rule=RULE_WHILE, hang_is_violation=True),
+           budget={"quick": 160, "thorough": 5000}, timeout=WATCHDOG, rule=RULE_WHILE, hang_is_violation=True),
     Stream("survey", "enum", make_survey, check_survey, timeout=10.0,
            rule="survey only, nothing asserted: knife-edge lengths (equal as rationals, spelled differently), boolean "
                 "names that collide with commands, \\def inside a \\whiledo body, \\provideboolean of an existing "
                 "boolean; outcomes are counted under `excluded`"),
-    Stream("notgrid", "enum", make_grid, check_grid, timeout=4.0, rule=RULE_GRID, hang_is_violation=True),
+    Stream("notgrid", "enum", make_grid, check_grid, timeout=WATCHDOG, rule=RULE_GRID, hang_is_violation=True),
 ]
